@@ -31,12 +31,18 @@ type LimPeer struct {
 
 // LimCase configures the RPC handler limits of one syncer and the bursts.
 type LimCase struct {
-	PerPeer   int       `json:"per_peer"`   // 1..8
-	PerSubnet int       `json:"per_subnet"` // <= 0 disabled, 1..8
-	Prefix    int       `json:"prefix"`     // IPv4 prefix bits: 32, 24, 16
-	Peers     []LimPeer `json:"peers"`
-	Kinds     []int     `json:"kinds"`   // RPC kind per request, cycled
-	HoldUS    int       `json:"hold_us"` // time the handlers are held after the expected level is reached
+	PerPeer   int `json:"per_peer"`   // 1..8
+	PerSubnet int `json:"per_subnet"` // <= 0 disabled, 1..8
+	// Prefix: IPv4 prefix bits handed to WithInflightRPCSubnetPrefixes. Valid are
+	// 0..32 (0 = one subnet for the whole family, i.e. a global cap); the option
+	// documents that a value outside the range is ignored and the default (/32)
+	// used, which is what the harness' own model does too.
+	Prefix int `json:"prefix"`
+	// Prefix6: the IPv6 argument (no IPv6 peers on loopback: configuration only).
+	Prefix6 int       `json:"prefix6,omitempty"`
+	Peers   []LimPeer `json:"peers"`
+	Kinds   []int     `json:"kinds"`   // RPC kind per request, cycled
+	HoldUS  int       `json:"hold_us"` // time the handlers are held after the expected level is reached
 	// Order: how the two messages of a request (RPC id, request body) of
 	// concurrent requests are laid out on one connection.
 	//   0 = contiguous (id and body of a request are written back to back, as
@@ -85,7 +91,8 @@ func (p LimPeer) ip() string { return fmt.Sprintf("127.%d.7.%d", 40+p.Subnet, p.
 func genLim(t *rapid.T) LimCase {
 	c := LimCase{
 		PerPeer: rapid.IntRange(1, 8).Draw(t, "perpeer"),
-		Prefix:  rapid.SampledFrom([]int{32, 32, 24, 16}).Draw(t, "prefix"),
+		Prefix:  rapid.SampledFrom([]int{0, 0, 8, 16, 24, 31, 32, 32, -1, 33, 64}).Draw(t, "prefix"),
+		Prefix6: rapid.SampledFrom([]int{0, 48, 64, 128, -1, 129}).Draw(t, "prefix6"),
 		HoldUS:  rapid.IntRange(0, 3000).Draw(t, "hold"),
 	}
 	if rapid.IntRange(0, 3).Draw(t, "subnet-disabled") == 0 {
@@ -96,7 +103,9 @@ func genLim(t *rapid.T) LimCase {
 	np := rapid.IntRange(1, 4).Draw(t, "npeers")
 	nb := rapid.IntRange(2, 3).Draw(t, "nbursts")
 	for i := 0; i < np; i++ {
-		p := LimPeer{Subnet: rapid.IntRange(0, 1).Draw(t, "subnet"), Host: rapid.IntRange(1, 2).Draw(t, "host")}
+		// addresses 127.{40,41}.7.{1,2,3}: same /8, two /16 and /24, .2 and .3
+		// share a /31 - neighbouring prefix lengths group them differently
+		p := LimPeer{Subnet: rapid.IntRange(0, 1).Draw(t, "subnet"), Host: rapid.IntRange(1, 3).Draw(t, "host")}
 		for b := 0; b < nb; b++ {
 			p.Bursts = append(p.Bursts, rapid.IntRange(0, 3*c.PerPeer+1).Draw(t, "burst"))
 		}
@@ -139,9 +148,15 @@ func runLim(c LimCase, cs *kit.CaseStats) error {
 	}
 	defer node.Close()
 	gate := p2px.NewGate()
+	effPrefix := c.Prefix
+	if effPrefix < 0 || effPrefix > 32 {
+		effPrefix = 32 // documented: out of range = ignored, default used
+		cs.Class("prefix-out-of-range(default)")
+	}
+	cs.Classf("ipv4-prefix=/%d", effPrefix)
 	subnetOf := make([]string, len(c.Peers))
 	for i, p := range c.Peers {
-		subnetOf[i] = p2px.MaskIP(p.ip(), c.Prefix)
+		subnetOf[i] = p2px.MaskIP(p.ip(), effPrefix)
 	}
 	keysFor := func(peer int) []string {
 		if peer < 0 || peer >= len(c.Peers) {
@@ -152,7 +167,7 @@ func runLim(c LimCase, cs *kit.CaseStats) error {
 	srv, err := p2px.StartSyncer(node, p2px.NodeConfig{Name: "srv", IP: p2px.ListenIP(0), UID: p2px.DetUniqueID("lim-srv"), Gate: gate, KeysFor: keysFor, Opts: []syncer.Option{
 		syncer.WithSyncInterval(time.Hour), syncer.WithPeerDiscoveryInterval(time.Hour),
 		syncer.WithMaxInflightRPCs(c.PerPeer), syncer.WithMaxInflightRPCsPerSubnet(c.PerSubnet),
-		syncer.WithInflightRPCSubnetPrefixes(c.Prefix, 48), syncer.WithMaxInboundPeers(16),
+		syncer.WithInflightRPCSubnetPrefixes(c.Prefix, c.Prefix6), syncer.WithMaxInboundPeers(16),
 	}})
 	if err != nil {
 		return err
@@ -455,7 +470,7 @@ func runLim(c LimCase, cs *kit.CaseStats) error {
 
 var c18LimProp = kit.Prop[LimCase]{
 	ID:   "C18",
-	Rule: "syncer RPC handler limits: per-peer limit 1..8, per-subnet limit <= 0 (disabled) or 1..8, IPv4 subnet prefix 32/24/16, 1..4 scripted gateway peers dialing from 127.{40,41}.7.{1,2}, 2..3 bursts of 0..3L+1 concurrent SendV2Blocks / SendTransactions / SendHeaders requests per peer whose handlers are held inside a wrapping ChainManager. Oracle: concurrent handlers per peer <= L and per subnet <= S at all times; while held, every subnet reaches min(S, Σ min(L, n_p)) (so no slot leaked by an earlier burst, including bursts with subnet drops); every request is answered unless its subnet can exceed S (then it may be dropped, the connection stays usable); at least the admitted number is answered. Non-trivial = some peer's burst >= 2x the per-peer limit.",
+	Rule: "syncer RPC handler limits: per-peer limit 1..8, per-subnet limit <= 0 (disabled) or 1..8, IPv4 subnet prefix drawn from {0, 8, 16, 24, 31, 32} and the out-of-range values {-1, 33, 64} (documented: ignored, /32 used), IPv6 argument from {0, 48, 64, 128, -1, 129}, 1..4 scripted gateway peers dialing from 127.{40,41}.7.{1,2,3} (same /8, two /16 and /24, .2/.3 share a /31, so neighbouring prefix lengths group them differently), 2..3 bursts of 0..3L+1 concurrent SendV2Blocks / SendTransactions / SendHeaders requests per peer whose handlers are held inside a wrapping ChainManager. Oracle: concurrent handlers per peer <= L and per subnet <= S at all times; while held, every subnet reaches min(S, Σ min(L, n_p)) (so no slot leaked by an earlier burst, including bursts with subnet drops); every request is answered unless its subnet can exceed S (then it may be dropped, the connection stays usable); at least the admitted number is answered. Non-trivial = some peer's burst >= 2x the per-peer limit.",
 	Assumptions: []string{
 		"per-peer limit <= 0 is not documented as 'disabled' (only the per-subnet option is) and is kept out of the generator",
 		"the subnet of a peer is computed by the harness from its source address and the configured prefix, independently of the syncer",
